@@ -9,6 +9,7 @@ pub fn run_case(property: &str, kind: &str, case: &Value) -> Option<Vec<Finding>
     match property {
         "C18" => crate::c18::replay(kind, case),
         "C05" => crate::c05::replay(kind, case),
+        "C06" => crate::c06::replay(kind, case),
         "C04" | "C11" | "C17" | "C01" | "C02" | "C03" => crate::gramsweep::replay(property, kind, case),
         _ => None,
     }
